@@ -1,4 +1,4 @@
-import SqlObjVerif.Model.Fail
+import SqlObjVerif.Props.C06
 import SqlObjVerif.Model.DrvUtil
 /-! Driver for C06 (stateful).  Requests:
   `schema <nlinks> <cls>…`   cls = `<col>,<col>…/<L|E>/<parent|->/<tab:other:side>,…|-`
@@ -8,7 +8,7 @@ import SqlObjVerif.Model.DrvUtil
   `op <inj> create c <missing 0|1> <kw> <extras>` | `op <inj> createChild c <pkw> <ckw>`
   `op <inj> createChain <c:kw>… (leaf first)` | `op <inj> destroy c id`       inj = `-` | `<k>o` | `<k>i`; kw = `col=v,…|-`; v = `bad|N|<int>`;
                                 extras = `-` or `,`-joined `u` `o` `b` `f<col>=<v>`
-  Answer to `op`: `<ok|Err> # <statement log> # <changes> # <dump>`. -/
+  Answer to `op`: `<ok|Err> # <statement log> # <changes> <syn|gap> # <dump>` (`syn`: `AtomicSyn` holds before the call). -/
 open SqlObjVerif SqlObjVerif.Fail SqlObjVerif.DrvUtil
 
 structure DSt where
@@ -136,8 +136,10 @@ def handle (d : DSt) (line : String) : DSt × String :=
     | some op =>
       let c0 := d.st.changes
       let (s', r) := step d.sch d.st op (parseInj inj)
+      -- the syntactic condition of theorem C06_failed_op_is_noop_syntactic, decided on the state BEFORE the call
+      let syn := if decide (AtomicSyn d.sch d.st op (parseInj inj)) then "syn" else "gap"
       let out := (match r with | none => "ok" | some e => showErr e) ++ " # " ++
-        " ".intercalate (s'.log.reverse.map showStmt) ++ " # " ++ toString (s'.changes - c0) ++ " # " ++ showDump s'.core
+        " ".intercalate (s'.log.reverse.map showStmt) ++ " # " ++ toString (s'.changes - c0) ++ " " ++ syn ++ " # " ++ showDump s'.core
       ({ d with st := s' }, out)
   | _ => (d, "bad-request")
 
